@@ -541,7 +541,7 @@ func RunC18(c *Ctx) {
 	if len(bases) < 10 {
 		r.Note("only %d base tables could be generated", len(bases))
 	}
-	total := c.N(24000, 3000000)
+	total := c.N(24000, 600000)
 	batch := 400
 	self := os.Getenv("VERIF_HARNESS_BIN")
 	if self == "" {
